@@ -116,7 +116,7 @@ package obfs4
 //@   ensures [C04:tail_only] pos >= 0 && fromTail ==> pos == min(len(buf), maxPos) - 32
 
 //@ pred chsInv(hs) := hs != nil && hs.mac != nil && hs.mac.hsize == 32 && hs.mac.halg == 1 && kpOK(hs.keypair) && hs.nodeID != nil && hs.serverIdentity != nil
-//@       && hs.mac.hkey == cat(seq(hs.serverIdentity), seq(hs.nodeID))
+//@       && hs.mac.hkey == cat(seq(hs.serverIdentity), seq(hs.nodeID)) && (hs.serverRepresentative == nil <==> hs.serverAuth == nil)
 //@       && (hs.serverRepresentative != nil && hs.serverAuth != nil ==> len(hs.serverMark) == 16 && seq(hs.serverMark) == sub(HASH(1, hs.mac.hkey, seq(hs.serverRepresentative)), 0, 16))
 
 //@ func (*clientHandshake).parseServerHandshake(hs, resp) (n, seed, err)
@@ -129,6 +129,7 @@ package obfs4
 //@   ensures [C02:state] chsInv(hs)
 //@   ensures [C06:first_64_bytes_are_Y_and_AUTH] (rep0 == nil || auth0 == nil) && hs.serverRepresentative != nil ==> seq(hs.serverRepresentative) == sub(seq(resp), 0, 32) && seq(hs.serverAuth) == sub(seq(resp), 32, 64) && fresh(hs.serverRepresentative) && fresh(hs.serverAuth)
 //@   ensures [C06:keeps_first_64_bytes] rep0 != nil && auth0 != nil ==> hs.serverRepresentative == rep0 && hs.serverAuth == auth0 && unchanged(seq(rep0), seq(auth0))
+//@   ensures [C10:not_yet_means_short] err == ErrMarkNotFoundYet ==> len(resp) < 8192
 //@   ensures [C02:consumed] err == nil ==> 96 <= n && n <= len(resp) && n <= 8192 && len(seed) == 32 && hs.serverRepresentative != nil && hs.serverAuth != nil
 //@   ensures [C02:mark_checked] err == nil ==> sub(seq(resp), n - 32, n - 16) == sub(HASH(1, hs.mac.hkey, seq(hs.serverRepresentative)), 0, 16)
 //@   ensures [C02:mac_checked] err == nil ==> sub(seq(resp), n - 16, n) == sub(HASH(1, hs.mac.hkey, cat(sub(seq(resp), 0, n - 16), hour)), 0, 16)
@@ -161,6 +162,7 @@ package obfs4
 //@       && exists(h, (now0 / 1000000000) / 3600 - 1, (now / 1000000000) / 3600 + 2, seq(hs.epochHour) == fmtInt(h, 10))
 //@   ensures [C04:state] shsInv(hs) && hsApart(hs, filter)
 //@   ensures [C06:first_32_bytes_are_X] rep0 == nil && hs.clientRepresentative != nil ==> seq(hs.clientRepresentative) == sub(seq(resp), 0, 32) && fresh(hs.clientRepresentative)
+//@   ensures [C10:not_yet_means_short] err == ErrMarkNotFoundYet ==> len(resp) < 8192
 //@   ensures [C04:no_trailing] err == nil ==> 141 <= len(resp) && len(resp) <= 8192 && hs.clientRepresentative != nil && len(seed) == 32
 //@   ensures [C04:mark_checked] err == nil ==> sub(seq(resp), len(resp) - 32, len(resp) - 16) == sub(HASH(1, hs.mac.hkey, seq(hs.clientRepresentative)), 0, 16)
 //@   ensures [C04:mac_bound_to_hour] err == nil ==> sub(seq(resp), len(resp) - 16, len(resp)) == sub(HASH(1, hs.mac.hkey, cat(sub(seq(resp), 0, len(resp) - 16), seq(hs.epochHour))), 0, 16)
@@ -191,3 +193,37 @@ package obfs4
 //@       && sub(seq(blob), 48 + hs.padLen, 64 + hs.padLen) == sub(HASH(1, hs.mac.hkey, cat(sub(seq(blob), 0, 48 + hs.padLen), seq(hs.epochHour))), 0, 16)
 //@   ensures [C06:hour_is_decimal] err == nil ==> exists(h, (old(now) / 1000000000) / 3600, (now / 1000000000) / 3600 + 1, seq(hs.epochHour) == fmtInt(h, 10))
 //@   ensures chsInv(hs)
+
+// ---- connection-level handshake (obfs4.go) ----
+//@ pred hsConn(conn) := conn != nil && conn.Conn != nil && conn.receiveBuffer != nil && whole(conn.receiveBuffer) && conn.receiveDecodedBuffer != nil && whole(conn.receiveDecodedBuffer)
+//@     && conn.receiveBuffer != conn.receiveDecodedBuffer && len(conn.readBuffer) == 23168 && conn.readBuffer != nil
+//@     && outside(conn.readBuffer, conn) && outside(conn.readBuffer, conn.receiveBuffer) && outside(conn.readBuffer, conn.receiveDecodedBuffer)
+//@     && outside(conn.Conn, conn) && outside(conn.Conn, conn.receiveBuffer) && outside(conn.Conn, conn.receiveDecodedBuffer)
+
+//@ func newClientHandshake(nodeID, serverIdentity, sessionKey) (hs)
+//@   serves C02 C06 C10
+//@   requires nodeID != nil && serverIdentity != nil && kpOK(sessionKey)
+//@   ensures [C06:client_mac_key] hs != nil && fresh(hs) && chsInv(hs) && hs.keypair == sessionKey && hs.nodeID == nodeID && hs.serverIdentity == serverIdentity && hs.serverRepresentative == nil && hs.serverAuth == nil
+//@   ensures [C06:client_pad_range] 77 <= hs.padLen && hs.padLen <= 8128
+
+//@ func newServerHandshake(nodeID, serverIdentity, sessionKey) (hs)
+//@   serves C03 C04 C06 C10
+//@   requires nodeID != nil && kpOK(serverIdentity) && kpOK(sessionKey)
+//@   ensures [C06:server_mac_key] hs != nil && fresh(hs) && shsInv(hs) && hs.keypair == sessionKey && hs.nodeID == nodeID && hs.serverIdentity == serverIdentity && hs.clientRepresentative == nil
+//@   ensures [C06:server_pad_range] 0 <= hs.padLen && hs.padLen <= 8051
+
+//@ func (*obfs4Conn).clientHandshake(conn, nodeID, peerIdentityKey, sessionKey) (err)
+//@   serves C01 C02 C06 C10
+//@   requires hsConn(conn) && conn.encoder == nil && conn.decoder == nil && len(conn.receiveBuffer.content) == 0
+//@   requires nodeID != nil && peerIdentityKey != nil && kpOK(sessionKey) && sessionKey.representative != nil && labelsOK()
+//@   modifies conn.encoder, conn.decoder, conn.receiveBuffer.*, conn.Conn.wr, conn.Conn.nwrites, conn.Conn.rd, conn.Conn.nreads, blocked, now
+//@   loop 1 invariant chsInv(hs) && hs.keypair == sessionKey && hsConn(conn) && conn.encoder == nil && conn.decoder == nil && labelsOK()
+//@   loop 1 invariant [C10:handshake_rx_bound] len(conn.receiveBuffer.content) < 8192
+//@   assert_at ntor.Kdf [C06:okm_len] arg1 == 144
+//@   assert_at framing.NewEncoder [C06:key_split_client] seq(arg0) == sub(HKDF(seq(seed), T_KEY, M_EXPAND, 0, 144), 0, 72)
+//@   assert_at framing.NewDecoder [C06:key_split_client] seq(arg0) == sub(HKDF(seq(seed), T_KEY, M_EXPAND, 0, 144), 72, 144)
+//@   ensures [C02:keys_only_after_checks] err != nil ==> conn.encoder == nil && conn.decoder == nil
+//@   ensures [C02:keys_installed] err == nil ==> conn.encoder != nil && conn.decoder != nil && encInv(conn.encoder) && decInv(conn.decoder) && conn.decoder.nextLength == 0
+//@   ensures [C10:handshake_rx_bound] len(conn.receiveBuffer.content) < 8192 + 8192
+//@   ensures [C01:no_stranded_frame] err == nil ==> needMore(conn.decoder, conn.receiveBuffer)
+//@   ensures hsConn(conn)
